@@ -55,6 +55,8 @@ def main():
         c1 = instr.counters()
         j["counters_global"] = {k: c1[k] - c0.get(k, 0) for k in c1}
         j["lock_edges"] = sorted("%s -> %s" % k for k in instr.LM.edges)
+        j["event_kinds"] = dict(instr.LOG.kinds)
+        instr.LOG.kinds = {}
         out.write(json.dumps(j, default=repr) + "\n")
         out.flush()
         if harness.need_recycle():
